@@ -3,7 +3,7 @@
    dec_out_sound / dec_out_ignores_nongrammar / press_is_down_then_up. *)
 From RP Require Import Lib.Base Lib.Sexp Lib.Strings Lib.Utf8 Lib.TrimSpace Lib.FloatFmt Model.MsgOut Model.DecOut
   Spec.DenoteOut Spec.GrammarOut Proofs.GfxNum Proofs.OutStrings Proofs.OutDecSkel Proofs.OutDecEvent
-  Proofs.OutDecSys.
+  Proofs.OutDecSys Proofs.OutReader.
 From Coq Require Import String.
 Open Scope Z_scope.
 
@@ -33,9 +33,6 @@ Proof.
 Qed.
 
 (* ---------------------------------------------------------------- value kinds of the reader *)
-Lemma rv_nolf vk v st rs : read_value vk v = WF st rs -> has_lf v = false.
-Proof. unfold read_value. destruct (has_lf v); [discriminate|reflexivity]. Qed.
-
 Lemma rv_strict_nonempty key vk v rs :
   lookup key key_table = Some vk -> read_value vk v = WF true rs -> v <> [].
 Proof.
